@@ -55,6 +55,16 @@ theorem eval_binary_strict (sc : SCfg) {m : Meta} {op : String} {l r : Node}
   simp only [h1, h2, Bool.false_eq_true, if_false]
   rfl
 
+theorem evalLoc_binary_strict (sc : SCfg) {m : Meta} {op : String} {l r : Node}
+    (h1 : (op == "and" || op == "&&") = false) (h2 : (op == "or" || op == "||") = false) :
+    evalLoc sc ctx (.binary m op l r) = (do
+      let a ← evalLoc sc ctx l
+      let b ← evalLoc sc ctx r
+      SML.raisedAt m.loc (binTail sc op l r a b)) := by
+  rw [evalLoc_binary]
+  simp only [h1, h2, Bool.false_eq_true, if_false]
+  rfl
+
 /-- what the opcodes of a strict binary operator (emitted at location `loc`) have to do with the two operand values -/
 def TailOK (c : Cfg) (P : LProg) (loc : Loc) (op : String) (l r : Node) (tail : List LInstr) : Prop :=
   ∀ (k : Nat) (st : List Val) (scs : List Scope) (σ : SState) (a b : Val) (res : R Val) (σ' : SState),
@@ -65,18 +75,20 @@ def TailOK (c : Cfg) (P : LProg) (loc : Loc) (op : String) (l r : Node) (tail : 
 theorem sim_binary_strict {m : Meta} {op : String} {l r : Node} {cl cr tail : List LInstr}
     (hl : Sim c P ctx l cl) (hr : Sim c P ctx r cr)
     (h1 : (op == "and" || op == "&&") = false) (h2 : (op == "or" || op == "||") = false)
-    (htail : TailOK c P m.loc op l r tail) (hbl : BlameOK c P (.binary m op l r)) :
+    (htail : TailOK c P m.loc op l r tail) :
     Sim c P ctx (.binary m op l r) (cl ++ cr ++ tail) := by
-  intro k st scs σ res σ' hcode hsc hev
-  have hev0 := hev
+  intro k st scs σ res σ' hcode hsc hev hB
   rw [eval_binary_strict _ h1 h2] at hev
+  rw [evalLoc_binary_strict _ h1 h2] at hB
   rcases SM.bind_cases hev with ⟨e, hle, rfl⟩ | ⟨a, σ1, hlv, hrest⟩
-  · exact hl k st scs σ _ _ hcode.left.left hsc hle
-  · refine Reach.runs (hl k st scs σ _ _ hcode.left.left hsc hlv) ?_
+  · exact hl k st scs σ _ _ hcode.left.left hsc hle hB.left
+  · refine Reach.runs (hl k st scs σ _ _ hcode.left.left hsc hlv hB.left) ?_
+    have hB1 := hB.right (evalLoc_of_ok hlv)
     rcases SM.bind_cases hrest with ⟨e, hre, rfl⟩ | ⟨b, σ2, hrv, hrest2⟩
-    · exact hr _ _ scs σ1 _ _ hcode.left.right hsc hre
-    · refine Reach.runs (hr _ _ scs σ1 _ _ hcode.left.right hsc hrv) ?_
-      exact (htail _ st scs σ2 a b res σ' (hcode.right.cast (by ip_arith)) hrest2 (hbl.of hev0)).to_ip (by ip_arith)
+    · exact hr _ _ scs σ1 _ _ hcode.left.right hsc hre hB1.left
+    · refine Reach.runs (hr _ _ scs σ1 _ _ hcode.left.right hsc hrv hB1.left) ?_
+      exact (htail _ st scs σ2 a b res σ' (hcode.right.cast (by ip_arith)) hrest2
+        ((hB1.right (evalLoc_of_ok hrv)).raised hrest2)).to_ip (by ip_arith)
 
 theorem match_eqInt (a b : Val) :
     (match a, b with
@@ -274,58 +286,76 @@ theorem eval_or (sc : SCfg) {m : Meta} {op : String} {l r : Node} (h1 : (op == "
       if ← asBool a then pure (.bool true) else eval sc ctx r) := by
   rw [eval_binary]; simp only [h1, h, if_true, Bool.false_eq_true, if_false]
 
+theorem evalLoc_and (sc : SCfg) {m : Meta} {op : String} {l r : Node} (h : (op == "and" || op == "&&") = true) :
+    evalLoc sc ctx (.binary m op l r) = (do
+      let a ← evalLoc sc ctx l
+      if ← SML.raisedAt m.loc (asBool a) then evalLoc sc ctx r else pure (.bool false)) := by
+  rw [evalLoc_binary]; simp only [h, if_true]
+
+theorem evalLoc_or (sc : SCfg) {m : Meta} {op : String} {l r : Node} (h1 : (op == "and" || op == "&&") = false)
+    (h : (op == "or" || op == "||") = true) :
+    evalLoc sc ctx (.binary m op l r) = (do
+      let a ← evalLoc sc ctx l
+      if ← SML.raisedAt m.loc (asBool a) then pure (.bool true) else evalLoc sc ctx r) := by
+  rw [evalLoc_binary]; simp only [h1, h, if_true, Bool.false_eq_true, if_false]
+
 theorem sim_and {m : Meta} {op : String} {l r : Node} {cl cr : List LInstr}
-    (hl : Sim c P ctx l cl) (hr : Sim c P ctx r cr) (hop : (op == "and" || op == "&&") = true)
-    (hbl : BlameOK c P (.binary m op l r)) :
+    (hl : Sim c P ctx l cl) (hr : Sim c P ctx r cr) (hop : (op == "and" || op == "&&") = true) :
     Sim c P ctx (.binary m op l r) (cl ++ [li m.loc .jumpIfFalse (1 + lsize cr), li m.loc .pop] ++ cr) := by
-  intro k st scs σ res σ' hcode hsc hev
-  have hev0 := hev
+  intro k st scs σ res σ' hcode hsc hev hB
   rw [eval_and _ hop] at hev
+  rw [evalLoc_and _ hop] at hB
   rcases SM.bind_cases hev with ⟨e, hle, rfl⟩ | ⟨a, σ1, hlv, hrest⟩
-  · exact hl k st scs σ _ _ hcode.left.left hsc hle
-  · refine Reach.runs (hl k st scs σ _ _ hcode.left.left hsc hlv) ?_
+  · exact hl k st scs σ _ _ hcode.left.left hsc hle hB.left
+  · refine Reach.runs (hl k st scs σ _ _ hcode.left.left hsc hlv hB.left) ?_
+    have hB1 := hB.right (evalLoc_of_ok hlv)
     have hj := hcode.left.right
     have hcr := hcode.right
     by_cases hb : ∃ bb, a = .bool bb
     · obtain ⟨bb, rfl⟩ := hb
+      have hB2 := hB1.right (a := bb) (σ1 := σ1) (raisedAt_ok (by rw [asBool_bool, SM.pure_apply]))
       rw [asBool_bool, SM.bind_apply, SM.pure_apply] at hrest
       cases bb
       · simp only [Bool.false_eq_true, if_false, SM.pure_apply] at hrest
         obtain ⟨rfl, rfl⟩ := Prod.mk.inj hrest
         exact Runs.jumpIfFalse_false hj (Reach.refl _ |>.to_ip (by ip_arith))
-      · simp only [if_true] at hrest
+      · simp only [if_true] at hrest hB2
         refine Runs.jumpIfFalse_true hj (Runs.pop hj.tail3 ?_)
-        exact ((hr _ st scs σ1 _ _ (hcr.cast (by ip_arith)) hsc hrest).to_ip (by ip_arith))
+        exact ((hr _ st scs σ1 _ _ (hcr.cast (by ip_arith)) hsc hrest hB2).to_ip (by ip_arith))
     · have hnb : ∀ bb, a ≠ .bool bb := fun bb h => hb ⟨bb, h⟩
+      have hbt := hB1.left.raised (r := .error .type_) (σ' := σ1) (by rw [asBool_other hnb, SM.fail_apply])
       rw [asBool_other hnb, SM.bind_apply, SM.fail_apply] at hrest
       obtain ⟨rfl, rfl⟩ := Prod.mk.inj hrest
-      exact Runs.jumpIf_err (.inr rfl) hj hnb (hbl _ _ _ _ hev0)
+      exact Runs.jumpIf_err (.inr rfl) hj hnb (hbt _ rfl)
 
 theorem sim_or {m : Meta} {op : String} {l r : Node} {cl cr : List LInstr}
     (hl : Sim c P ctx l cl) (hr : Sim c P ctx r cr) (hna : (op == "and" || op == "&&") = false)
-    (hop : (op == "or" || op == "||") = true) (hbl : BlameOK c P (.binary m op l r)) :
+    (hop : (op == "or" || op == "||") = true) :
     Sim c P ctx (.binary m op l r) (cl ++ [li m.loc .jumpIfTrue (1 + lsize cr), li m.loc .pop] ++ cr) := by
-  intro k st scs σ res σ' hcode hsc hev
-  have hev0 := hev
+  intro k st scs σ res σ' hcode hsc hev hB
   rw [eval_or _ hna hop] at hev
+  rw [evalLoc_or _ hna hop] at hB
   rcases SM.bind_cases hev with ⟨e, hle, rfl⟩ | ⟨a, σ1, hlv, hrest⟩
-  · exact hl k st scs σ _ _ hcode.left.left hsc hle
-  · refine Reach.runs (hl k st scs σ _ _ hcode.left.left hsc hlv) ?_
+  · exact hl k st scs σ _ _ hcode.left.left hsc hle hB.left
+  · refine Reach.runs (hl k st scs σ _ _ hcode.left.left hsc hlv hB.left) ?_
+    have hB1 := hB.right (evalLoc_of_ok hlv)
     have hj := hcode.left.right
     have hcr := hcode.right
     by_cases hb : ∃ bb, a = .bool bb
     · obtain ⟨bb, rfl⟩ := hb
+      have hB2 := hB1.right (a := bb) (σ1 := σ1) (raisedAt_ok (by rw [asBool_bool, SM.pure_apply]))
       rw [asBool_bool, SM.bind_apply, SM.pure_apply] at hrest
       cases bb
-      · simp only [Bool.false_eq_true, if_false] at hrest
+      · simp only [Bool.false_eq_true, if_false] at hrest hB2
         refine Runs.jumpIfTrue_false hj (Runs.pop hj.tail3 ?_)
-        exact ((hr _ st scs σ1 _ _ (hcr.cast (by ip_arith)) hsc hrest).to_ip (by ip_arith))
+        exact ((hr _ st scs σ1 _ _ (hcr.cast (by ip_arith)) hsc hrest hB2).to_ip (by ip_arith))
       · simp only [if_true, SM.pure_apply] at hrest
         obtain ⟨rfl, rfl⟩ := Prod.mk.inj hrest
         exact Runs.jumpIfTrue_true hj (Reach.refl _ |>.to_ip (by ip_arith))
     · have hnb : ∀ bb, a ≠ .bool bb := fun bb h => hb ⟨bb, h⟩
+      have hbt := hB1.left.raised (r := .error .type_) (σ' := σ1) (by rw [asBool_other hnb, SM.fail_apply])
       rw [asBool_other hnb, SM.bind_apply, SM.fail_apply] at hrest
       obtain ⟨rfl, rfl⟩ := Prod.mk.inj hrest
-      exact Runs.jumpIf_err (.inl rfl) hj hnb (hbl _ _ _ _ hev0)
+      exact Runs.jumpIf_err (.inl rfl) hj hnb (hbt _ rfl)
 
 end ExprModel.Refine
